@@ -6,4 +6,5 @@ CONSTANTS TxGas = 3
           Max = 12
           Holes = FALSE
 INVARIANTS Sufficient WithinRatio WithinCap FailsCleanly ProbesWithinCap NoRepeat HiSucceeds Progress ProbeBound
+PROPERTIES SearchRefines
 CHECK_DEADLOCK FALSE
